@@ -1,5 +1,6 @@
 import Qv.Driver.C02
 import Qv.Model.Info
+import Qv.Model.Heap
 namespace Qv.Drv.C19
 open Lean Qv
 
@@ -20,25 +21,34 @@ def mobjOfJson (j : Json) : Except String MObj := do
   let cons ← j.getObjVal? "cons" >>= consOfJson
   pure { kind, terms, name, mapping, anc, cons }
 
-def mobjJson (m : MObj) : Json :=
-  Json.mkObj [("kind", Json.str m.kind.name), ("terms", polyJson m.terms),
+/-- `ck`: the type of every recorded constraint polynomial, per relation -/
+def mobjJson (m : MObj) (ck : Json) : Json :=
+  Json.mkObj [("ckinds", ck),
+    ("kind", Json.str m.kind.name), ("terms", polyJson m.terms),
     ("name", match m.name with | some s => Json.str s | none => Json.null),
     ("mapping", Json.arr (m.mapping.map (fun e => Json.arr #[(e.1 : Json), (e.2 : Json)])).toArray),
     ("anc", (m.anc : Json)),
     ("cons", Json.arr (m.cons.map (fun g => Json.arr #[Json.str g.1.name,
         Json.arr (g.2.map polyJson).toArray])).toArray)]
 
-/-- op "info": `create_from_info(get_info(m))`; op "copy": `m.copy()` -/
+/-- `create_from_info` re-adds every recorded constraint with `add_constraint_<rel>_zero(x, lam=0)`, which stores
+`PUBO(x)` in a boolean and `PUSO(x)` in a spin model (`Qv.Hp.consKind`, the kind the explicit-heap model allocates) -/
+def readdedKinds (m : MObj) : Json :=
+  Json.arr (m.cons.map (fun g => Json.arr #[Json.str g.1.name,
+    Json.arr (g.2.map (fun _ => Json.str (Qv.Hp.consKind m.kind).name)).toArray])).toArray
+
+/-- op "info": `create_from_info(get_info(m))`; op "copy": `m.copy()` (`x.copy()` keeps the type of every recorded
+constraint polynomial: the kinds of the input are passed through) -/
 def handleInfo (j : Json) : Except String Json := do
   let m ← j.getObjVal? "m" >>= mobjOfJson
   match createFromInfo (getInfo m) with
-  | .ok m' => pure (mobjJson m')
+  | .ok m' => pure (mobjJson m' (readdedKinds m'))
   | .error e => pure (errJson e)
 
 def handleCopy (j : Json) : Except String Json := do
   let m ← j.getObjVal? "m" >>= mobjOfJson
   match copyObj m with
-  | .ok m' => pure (mobjJson m')
+  | .ok m' => pure (mobjJson m' ((j.getObjVal? "m" >>= fun mj => mj.getObjVal? "ckinds").toOption.getD (Json.arr #[])))
   | .error e => pure (errJson e)
 
 def handlersC19 : List (String × (Json → Except String Json)) := [("info", handleInfo), ("copy", handleCopy)]
